@@ -22,11 +22,12 @@ pkgs = {}
 for p in sorted(glob.glob(os.path.join(ROOT, "props", "C*.py"))):
     pid = os.path.basename(p)[:-3]
     P = chk.load_prop(pid)
-    outdir = os.path.join(ROOT, "out", pid)
-    os.makedirs(outdir, exist_ok=True)
-    ov = chk.write_overlay(P, outdir)
-    rc, out, dt = chk.sh(["go", "test", chk.modfile_arg(outdir), "-tags", "verif", "-overlay", ov, "-count=1", "-vet=off", "-run", "^$", P.GO_PKG],
-                         cwd=chk.REPO, timeout=1800, env=chk.go_env())
-    print("warm", pid, P.GO_PKG, "rc=%d %.0fs" % (rc, dt))
-    if rc != 0:
-        print(out[-2000:])
+    for k, run in enumerate(chk.runs_of(P)):
+        outdir = os.path.join(ROOT, "out", pid, "warm_%d" % k)
+        os.makedirs(outdir, exist_ok=True)
+        ov = chk.write_overlay(run, outdir)
+        rc, out, dt = chk.sh(["go", "test", chk.modfile_arg(outdir), "-tags", "verif", "-overlay", ov, "-count=1", "-vet=off", "-run", "^$", run["pkg"]],
+                             cwd=chk.REPO, timeout=1800, env=chk.go_env())
+        print("warm", pid, run["pkg"], "rc=%d %.0fs" % (rc, dt))
+        if rc != 0:
+            print(out[-2000:])
